@@ -218,7 +218,7 @@ def unit(path):
     return os.path.join(_src_root(), path)
 
 
-def extract_control(path, like_unit='base/QXmppUtils.cpp'):
+def extract_control(path, like_unit='base/QXmppUtils.cpp', extra_root=None):
     """facts for a positive-control translation unit under /verif/controls, compiled with the flags of a real unit"""
     units = configure()
     e = units.get(unit(like_unit))
@@ -227,10 +227,10 @@ def extract_control(path, like_unit='base/QXmppUtils.cpp'):
     args = clang_args(e)
     out_dir = os.path.join(WORK, 'facts')
     os.makedirs(out_dir, exist_ok=True)
-    key = _sha(path, _file_sha(path), _file_sha(QXV), ' '.join(args), headers_hash())[:24]
+    key = _sha(path, _file_sha(path), _file_sha(QXV), ' '.join(args), headers_hash(), extra_root or '')[:24]
     out = os.path.join(out_dir, 'control__' + os.path.basename(path) + '.' + key + '.json')
     if not os.path.exists(out):
-        r = subprocess.run([QXV, '--out', out, '--root', os.path.dirname(path), '--'] + args + [path],
+        r = subprocess.run([QXV, '--out', out, '--root', os.path.dirname(path)] + (['--extra-root', extra_root] if extra_root else []) + ['--'] + args + [path],
                            stdout=subprocess.PIPE, stderr=subprocess.PIPE, text=True)
         if not os.path.exists(out):
             raise AnalysisBroken('control %s failed to extract: %s' % (path, r.stderr[-800:]))
